@@ -309,6 +309,19 @@ func strAxioms(used map[*Decl]bool) []*Term {
 	out = append(out, Forall([]*Term{x}, Ge(strLen(x), IntLit(0)), []*Term{strLen(x)}))
 	out = append(out, Forall([]*Term{x}, Implies(Eq(strLen(x), IntLit(0)), Eq(x, strLit(""))), []*Term{strLen(x)}))
 	out = append(out, Eq(strLen(strLit("")), IntLit(0)))
+	if d, ok := declTab["conv.runes2str"]; ok && used[d] {
+		// string([]rune) depends only on the runes below the length
+		e1 := BoundVar("re1", d.Args[0])
+		e2 := BoundVar("re2", d.Args[0])
+		n := BoundVar("rn", SInt)
+		n2 := BoundVar("rn2", SInt)
+		a1 := App("conv.runes2str", SStr, e1, n)
+		a2 := App("conv.runes2str", SStr, e2, n2)
+		// two lengths and an equality guard: the lengths of two applications are rarely the same term
+		out = append(out, Forall([]*Term{e1, e2, n, n2}, Implies(Eq(n, n2), Or(Eq(a1, a2), Exists([]*Term{j}, And(Le(IntLit(0), j), Lt(j, n), Not(Eq(Select(e1, j), Select(e2, j))))))), []*Term{a1, a2}))
+		out = append(out, Forall([]*Term{e1}, Eq(App("conv.runes2str", SStr, e1, IntLit(0)), strLit("")), []*Term{App("conv.runes2str", SStr, e1, IntLit(0))}))
+		out = append(out, Forall([]*Term{e1, n}, Implies(Gt(n, IntLit(0)), Gt(strLen(App("conv.runes2str", SStr, e1, n)), IntLit(0))), []*Term{App("conv.runes2str", SStr, e1, n)}))
+	}
 	if d, ok := declTab["sx.at"]; ok && used[d] {
 		out = append(out, Forall([]*Term{x, i}, And(Le(IntLit(0), strAt(x, i)), Le(strAt(x, i), IntLit(255))), []*Term{strAt(x, i)}))
 	}
